@@ -372,8 +372,18 @@ func (g *Gen) largeKeyed(op string, rid BS) {
 	if g.thorough() {
 		sizes = []int{1023, 1025, 2049, 4095, 4096, 4097, 4098, 4099, 8193, 16387}
 	}
+	if g.thorough() {
+		// alternating calls on frames large enough for a table of 4096 slots and more to be grown and - should
+		// the implementation recycle tables - to be handed from one call to the next
+		for round := 0; round < 4; round++ {
+			sizes = append(sizes, 9001+round, 12001+round)
+		}
+	}
 	for _, n := range sizes {
 		for variant := 0; variant < 2; variant++ {
+			if n > 9000 && n < 9010 && variant == 1 || n > 12000 && n < 12010 && variant == 0 {
+				continue // 9001.. all distinct, 12001.. ten keys, in turn
+			}
 			k := make([]int64, n)
 			for i := range k {
 				if variant == 0 {
